@@ -21,7 +21,7 @@
    KOk w: memory = stored rows, one active keyset = w_active, all other ids smaller.  The bit-level derivation is C11 (c09-keygen stream).
 *)
 From Coq Require Import ZArith List Bool.
-From Verif Require Import Model Sem InvDb InvSwap InvMint InvMelt Corollaries Queries Footprint HRel Global GlobalQuote GlobalValue GlobalErr GlobalQuery GlobalMelt GlobalKeys Cuts CutOrder Conc Races GlobalBalance.
+From Verif Require Import Model Sem InvDb InvSwap InvMint InvMelt Corollaries Queries Footprint HRel Global GlobalQuote GlobalValue GlobalErr GlobalQuery GlobalMelt GlobalKeys Cuts CutOrder Conc Races GlobalBalance GlobalLedger Reconf.
 Import ListNotations.
 Open Scope Z_scope.
 
@@ -32,6 +32,11 @@ Print Assumptions C09_one_active_keyset.
 Theorem C09_keysets_never_lost : forall (cfg : config) (h : list hitem) (w : world), ks_ext (d_ks (w_db w)) (d_ks (w_db (hrun cfg w h))).
 Proof. exact @keysets_never_lost. Qed.
 Print Assumptions C09_keysets_never_lost.
+
+Theorem C09_reconf_keeps_keysets : forall (segs : list (config * list hitem)) (w : world),
+       ks_ext (d_ks (w_db w)) (d_ks (w_db (hrun_cfgs w segs))).
+Proof. exact @reconf_keeps_keysets. Qed.
+Print Assumptions C09_reconf_keeps_keysets.
 
 Theorem C09_cut_keeps_keysets : forall (cfg : config) (mem_ks : list ksrow) (active : Z) (o : op) (n : nat) (f : oracle) (w : world),
        match o with
